@@ -28,6 +28,14 @@ class Native:
     stub objects around: e.g. a stand-in for a networkx node view)"""
 
 
+class Volatile:
+    """A field written by other threads: EVERY read evaluates the thunk (a fresh value constrained by the rely
+    condition of the contract)."""
+
+    def __init__(self, thunk):
+        self.thunk = thunk
+
+
 class Lazy:
     """A field / dict value whose (possibly forking) construction is deferred to its first use, so
     that paths which never read it do not multiply."""
@@ -83,6 +91,8 @@ class Obj:
             v = f[name]
             if isinstance(v, Lazy):
                 v = f[name] = v.thunk()
+            if isinstance(v, Volatile):
+                return v.thunk()
             return v
         fb = object.__getattribute__(self, '__dict__').get('_fallback')
         if fb is not None and not name.startswith('__'):
